@@ -19,6 +19,7 @@ def handle (m : Mode) (ds : DState) (raw : String) : DState × String :=
         | "elem=unit" => Elem.unit
         | "elem=nan" => Elem.nan
         | "elem=wide" => Elem.wide
+        | "elem=widecell" => Elem.widecell
         | _ => Elem.u32
       ({ elem := elem }, s!"M case {ws.getD 1 ""} ## S ok")
     else
